@@ -585,6 +585,26 @@ impl endpoint::Session for ListenerSession {
         }
     }
 
+    fn on_incoming_transfer_received(&mut self) {
+        self.session.on_incoming_transfer_received()
+    }
+
+    async fn deliver_incoming_transfer(
+        &mut self,
+        transfer: Transfer,
+        payload: Payload,
+    ) -> Result<Option<Disposition>, Self::Error> {
+        match self
+            .session
+            .deliver_incoming_transfer(transfer, payload)
+            .await
+        {
+            // as in `on_incoming_transfer`
+            Err(SessionInnerError::UnattachedHandle) => Ok(None),
+            other => other,
+        }
+    }
+
     fn on_incoming_disposition(
         &mut self,
         disposition: Disposition,
